@@ -183,6 +183,58 @@ func propC16(c *Ctx) {
 		if n == 0 {
 			c.Und(rd, "reuse of a cached function constant", "-", "no return of a cached function index found: shape not modelled")
 		}
+		// the comparison compares positions, not only the set of instruction offsets:
+		// a value read from one map meets a value read from the other in an (in)equality,
+		// or both maps are handed to one library call (reflect.DeepEqual, maps.Equal)
+		for fn := range cmpSM {
+			isSMLoad := func(v ssa.Value) bool {
+				u, ok := v.(*ssa.UnOp)
+				if !ok {
+					return false
+				}
+				_, ok = isFieldAddrOf(u.X, modPath, "CompiledFunction", fSrcMap)
+				return ok
+			}
+			mapValue := func(v ssa.Value) bool { // a VALUE of a source map: m[k], or the value of a range step over m
+				return derivesFrom(v, func(x ssa.Value) bool {
+					switch y := x.(type) {
+					case *ssa.Lookup:
+						return isSMLoad(y.X)
+					case *ssa.Extract:
+						if nx, ok := y.Tuple.(*ssa.Next); ok && y.Index == 2 {
+							if rg, ok := nx.Iter.(*ssa.Range); ok {
+								return isSMLoad(rg.X)
+							}
+						}
+						if lk, ok := y.Tuple.(*ssa.Lookup); ok && y.Index == 0 {
+							return isSMLoad(lk.X)
+						}
+					}
+					return false
+				}, 3)
+			}
+			valuesMeet := false
+			eachInstr(fn, func(ins ssa.Instruction) {
+				switch x := ins.(type) {
+				case *ssa.BinOp:
+					if (x.Op == token.EQL || x.Op == token.NEQ) && mapValue(x.X) && mapValue(x.Y) {
+						valuesMeet = true
+					}
+				case *ssa.Call:
+					k := 0
+					for _, a := range x.Call.Args {
+						if derivesFrom(a, isSMLoad, 3) {
+							k++
+						}
+					}
+					if k >= 2 {
+						valuesMeet = true
+					}
+				}
+			})
+			c.Check(rd, fnName(fn)+" | positions compared", l.Pos(fn.Pos()), valuesMeet, "a position of one map is compared with a position of the other",
+				"the source-map comparison never compares a position of one map with a position of the other (it compares lengths and instruction offsets only): two function literals whose bodies compile to the same instructions are merged, the later one reporting the earlier one's lines - and, functions being compared by identity, `a == b` differs between optimized and unoptimized code")
+		}
 	}
 
 	// ---- line-table -----------------------------------------------------------------------------------
@@ -260,12 +312,16 @@ func propC16(c *Ctx) {
 	rcf := c.Rule("copy-fields", "copying an error value keeps all of its fields: RuntimeError.Copy carries the file set (without it a derived error prints '-' for every trace position) and the trace", 2)
 	ruleCopyFields(c, rcf, "Error", "RuntimeError")
 
+	ren := c.Rule("emit-node", "a function compiling a syntax node never emits an instruction with a nil node (every instruction it emits has a source position: any of them can follow a call)", 1)
+	ruleEmitNode(c, ren)
+
 	// ---- throw-trace -------------------------------------------------------------------------------------
 	rr := c.Rule("throw-trace", "throwing appends the current position to the error's trace unless re-throwing, and one position per unwound caller frame", 1)
 	throw := l.Method(modPath, "VM", "throw")
 	addTrace := l.Method(modPath, "RuntimeError", "addTrace")
 	if c.Anchor(rr, "VM.throw / RuntimeError.addTrace", throw != nil && addTrace != nil) {
 		inLoop, atEntry := false, false
+		var loopCalls []ssa.Instruction
 		// throw and the helpers split out of it (the frame walk may live in a helper)
 		eachInstrDeep(throw, 2, func(ins ssa.Instruction) {
 			if host := ins.Parent(); host != throw && (host == addTrace || funcPkgPath(host) != modPath || host.Signature.Recv() == nil || !isNamed(host.Signature.Recv().Type(), modPath, "VM")) {
@@ -284,10 +340,74 @@ func propC16(c *Ctx) {
 			}
 			if cyc {
 				inLoop = true
+				loopCalls = append(loopCalls, ins)
 			} else {
 				atEntry = true
 			}
 		})
+		// every frame the walk visits gets its position: from the start of an
+		// iteration, every path to the next iteration or out of the loop passes addTrace
+		for _, call := range loopCalls {
+			b := call.Block()
+			var h *ssa.BasicBlock
+			for _, cand := range b.Parent().Blocks {
+				if !(cand == b || cand.Dominates(b)) || !blockReaches(b, cand) {
+					continue
+				}
+				back := false
+				for _, p := range cand.Preds {
+					if cand.Dominates(p) {
+						back = true
+					}
+				}
+				if back && (h == nil || h.Dominates(cand)) {
+					h = cand // innermost loop header around the call
+				}
+			}
+			if h == nil {
+				continue
+			}
+			inL := func(x *ssa.BasicBlock) bool { return (x == h || h.Dominates(x)) && blockReaches(x, h) }
+			hasCall := func(x *ssa.BasicBlock) bool {
+				for _, i := range x.Instrs {
+					if ci, ok := i.(ssa.CallInstruction); ok && ci.Common().StaticCallee() == addTrace {
+						return true
+					}
+				}
+				return false
+			}
+			missing := ""
+			seen := map[*ssa.BasicBlock]bool{}
+			var walk func(x *ssa.BasicBlock)
+			walk = func(x *ssa.BasicBlock) {
+				if seen[x] || missing != "" {
+					return
+				}
+				seen[x] = true
+				if hasCall(x) {
+					return
+				}
+				for _, sc := range x.Succs {
+					if sc == h || !inL(sc) {
+						missing = l.Pos(x.Instrs[len(x.Instrs)-1].Pos())
+						if missing == "-" || missing == "" {
+							missing = "block " + fmt.Sprint(x.Index)
+						}
+						return
+					}
+					walk(sc)
+				}
+			}
+			if !hasCall(h) {
+				for _, sc := range h.Succs {
+					if inL(sc) {
+						walk(sc)
+					}
+				}
+			}
+			c.Check(rr, fnName(b.Parent())+" | every visited frame is recorded", l.Pos(call.Pos()), missing == "", "every path through one step of the frame walk passes addTrace",
+				"a path through one step of the frame walk (ending near "+missing+") leaves the step without recording the frame's position: the frame whose handler takes the error (or another visited frame) is missing from the trace")
+		}
 		c.Check(rr, "VM.throw", l.Pos(throw.Pos()), inLoop && atEntry, "adds the current position and one position per unwound frame", fmt.Sprintf("trace positions are not recorded (at the throw site: %v, per unwound frame: %v)", atEntry, inLoop))
 	}
 }
